@@ -93,6 +93,41 @@ def fam_polyhedron(ctx, shape, fr_name, order_seed, moving):
     ctx.outcome('ok')
 
 
+def fam_shared_face(ctx, shape, fr_name, first):
+    """history: two bodies on both sides of a shared face are constructed one after the other in the same process (the
+    shared polygon is needed with opposite orientations); both must come out canonical whatever the order"""
+    P = B.polygon(shape, fr_name)
+    u = tuple(ctx.param('u%d' % i) for i in range(3))
+    h1 = ctx.param('h1', F(1, 2), 3)
+    h2 = ctx.param('h2', F(1, 2), 3)
+    base = [R.vadd(v, u) for v in P.verts]
+    c0 = R.vadd(P.centre, u)
+    apexes = {'up': R.affine(c0, (h1, P.n)), 'down': R.affine(c0, (-h2, P.n))}
+    k = len(base)
+
+    def build(which, flip_base):
+        ap = apexes[which]
+        faces = [list(reversed(base)) if flip_base else list(base)]
+        for i in range(k):
+            faces.append([base[i], base[(i + 1) % k], ap])
+        return ConvexPolyhedron(tuple(ConvexPolygon(tuple(pt(ctx, x) for x in f)) for f in faces)), faces, ap
+    order = ['up', 'down'] if first == 'up' else ['down', 'up']
+    for which in order:
+        for flip in (False, True):
+            st, res = call(lambda: build(which, flip))
+            if st == 'raise':
+                ctx.outcome('raise')
+                ctx.fail('C09:ConvexPolyhedron raises %s on the faces of a closed convex body (built after another body sharing a face)' % exc_sig(res), repr(res))
+            body, faces, ap = res
+            verts = base + [ap]
+            c = tuple(sum(v[i] for v in verts) / len(verts) for i in range(3))
+            for f in body.convex_polygons:
+                ctx.require(R.dot(V3(f.plane.n), R.vsub(c, V3(f.points[0]))) < 0, 'C09:a face normal of the polyhedron does not point away from the interior')
+                ctx.require(ccw_ok(f), 'C09:a face of the polyhedron is not counter-clockwise about its (outward) normal')
+            ctx.require(len(body.point_set) == k + 1 and len(body.segment_set) == 2 * k and len(body.convex_polygons) == k + 1, 'C09:V - E + F != 2')
+    ctx.outcome('ok')
+
+
 def families(tier, seed):
     rng = random.Random(seed)
     fams = []
@@ -110,6 +145,10 @@ def families(tier, seed):
             dups = [] if pi % 2 == 0 else [perm[0], perm[-1], perm[0]]
             fams.append(Family('polygon/%s@%s/order%s%s' % (sh, fr, ''.join(map(str, perm)), '+dup' if dups else ''), fam_polygon, (sh, fr, perm, dups),
                                must_reach=('ok',)))
+    for sh, fr in ([('tri', 'axis'), ('quad', 'axis')] if tier == 'quick' else [(s, f) for s in ('tri', 'quad', 'penta') for f in ('axis', 'oblique', 'pyth3')]):
+        for first in ('up', 'down'):
+            fams.append(Family('shared-face/%s@%s/%s-first' % (sh, fr, first), fam_shared_face, (sh, fr, first), must_reach=('ok',),
+                               budget_s=240 if tier == 'quick' else 900))
     bodies = [('tetra', 'axis', True), ('cube', 'oblique', False), ('prism', 'axis', False), ('pyramid', 'axis', True), ('octa', 'pyth3', False)]
     if tier == 'thorough':
         bodies = [(s, f, s in ('tetra', 'pyramid', 'octa')) for s in B.UNIT_SHAPES for f in ('axis', 'oblique', 'pyth3')]
